@@ -161,7 +161,7 @@ func Harness_C03_maxage_twolines() {
 }
 
 func Harness_C03_maxage_thorough() {
-	c03Run(16, 0, 2, 0)
+	c03Run(15, 0, 2, 0)
 }
 
 func Harness_C03_maxage_tiny() {
